@@ -68,6 +68,40 @@ fn run_sequence(seq: &[u8]) -> Result<(), String> {
 	Ok(())
 }
 
+/// (e) objects handed out by a handle that outlive it: a tree reader (it shares the handle's internals) kept, unlocked
+/// or locked, past the drop of the handle; the directory must be free again once the handle is dropped
+fn reader_outlives_handle(hold_lock: bool) -> Result<(), String> {
+	use parity_db::{NewNode, Operation};
+	let dir = worker_dir();
+	let _ = std::fs::remove_dir_all(&dir);
+	let c = Config::new(vec![ColSpec::hash(), ColSpec::tree()]);
+	let opts = c.options(&dir);
+	let db = Db::open_or_create(&opts).map_err(|e| format!("create: {}", e))?;
+	let key = b"tree-1".to_vec();
+	db.commit_changes(vec![(1u8, Operation::InsertTree(key.clone(), NewNode { data: vec![1, 2, 3], children: vec![] }))]).map_err(|e| format!("commit: {}", e))?;
+	for st in [parity_db::verif::Stage::ProcessCommits, parity_db::verif::Stage::FlushLogs, parity_db::verif::Stage::EnactOne, parity_db::verif::Stage::CleanLogs] {
+		db.verif_step(st).map_err(|e| format!("pipeline: {}", e))?;
+	}
+	let reader = db.get_tree(1, &key).map_err(|e| format!("get_tree: {}", e))?.ok_or("tree missing")?;
+	let r2 = reader.clone();
+	let guard = if hold_lock { Some(r2.read()) } else { None };
+	drop(db);
+	let what = if hold_lock { "a locked tree reader" } else { "a tree reader" };
+	let second = std::panic::catch_unwind(std::panic::AssertUnwindSafe(|| Db::open(&opts))).map_err(|e| format!("open after drop with {} still alive panicked: {}", what, panic_msg(e)))?;
+	match second {
+		Ok(db2) => {
+			let t = db2.get_tree(1, &key).map_err(|e| format!("get_tree after reopen: {}", e))?;
+			if t.is_none() {
+				return Err(format!("tree missing after reopen with {} of the dropped handle still alive", what))
+			}
+		},
+		Err(e) => return Err(format!("the only handle was dropped, but with {} obtained from it still alive the directory cannot be opened again: {}", what, e)),
+	}
+	drop(guard);
+	drop(reader);
+	Ok(())
+}
+
 /// a directory holding synced-but-unapplied logs (so that open has recovery work to do)
 fn pending_image(dir: &Path) -> Result<(Config, crate::model::Model, std::sync::Arc<Vec<Vec<Vec<u8>>>>), Fail> {
 	let c = cfg();
@@ -263,6 +297,12 @@ pub fn run(tier: &str) -> ! {
 			(0, 0)
 		},
 	};
+	// (e)
+	for hold in [false, true] {
+		if let Err(m) = crate::interpose::fresh_thread(move || reader_outlives_handle(hold)) {
+			run.violation(json!({"property": "C18", "engine": "handles", "message": m}), &m);
+		}
+	}
 	// (c)
 	let mut kills = 0u64;
 	let mut mid = 0u64;
@@ -297,7 +337,7 @@ pub fn run(tier: &str) -> ! {
 	run.set("second_open_attempts_during_recovery", json!(attempts));
 	run.set("holder_process_killed_at_op", json!(kills));
 	run.set("holder_killed_mid_recovery", json!(mid));
-	run.set("rule", json!(format!("(a) every sequence of {} actions over {{open, open_or_create, drop}} x 3 handle slots in one process from a non-existent directory, against the model 'at most one live handle; open succeeds iff none is live (and the database exists or create is asked)'; a refused open must be a lock error (when a handle is live) and must leave every file byte unchanged; (b) while a first open replays synced-but-unapplied logs, and while that handle is dropped with two commits still queued, a second open is attempted right after each of the {} mutating file operations of both (callback from the I/O recorder): always a lock error, no file changed; (c) a child process opens the same image and is stopped at file operation k of its recovery for every k (and after the open): the parent's open is refused with a lock error and changes nothing; the child is killed with SIGKILL; the parent's next open succeeds and shows all committed data", len, rec_ops)));
+	run.set("rule", json!(format!("(a) every sequence of {} actions over {{open, open_or_create, drop}} x 3 handle slots in one process from a non-existent directory, against the model 'at most one live handle; open succeeds iff none is live (and the database exists or create is asked)'; a refused open must be a lock error (when a handle is live) and must leave every file byte unchanged; (b) while a first open replays synced-but-unapplied logs, and while that handle is dropped with two commits still queued, a second open is attempted right after each of the {} mutating file operations of both (callback from the I/O recorder): always a lock error, no file changed; (c) a child process opens the same image and is stopped at file operation k of its recovery for every k (and after the open): the parent's open is refused with a lock error and changes nothing; the child is killed with SIGKILL; the parent's next open succeeds and shows all committed data; (e) a tree reader obtained from a handle (unlocked, and with its read lock held) outlives the handle: after the drop the directory opens again", len, rec_ops)));
 	run.sample(json!({"sequence": "open_or_create(slot0) open(slot1) drop(slot0) open(slot1)", "expected": "ok, Locked, -, ok"}));
 	run.assumptions = vec!["flock semantics of this kernel; one machine".into()];
 	run.finish()
